@@ -127,7 +127,8 @@ func rounding(r *hx.Result, cfg hx.Config, rng *rand.Rand) {
 					Case: map[string]interface{}{"float64_bits": bits(x), "value": fmt.Sprint(x)}, Impl: impl, Model: m})
 			}
 			// enclosure in the float32 normal range (the anchor's "outward rounding"): oracle on the Go code
-			if ax := math.Abs(x); ax >= 0x1p-126 && ax <= math.MaxFloat32 {
+			// (range of theorem c02_enclosure_normal_range: |x| >= 2^-126 and float32(x) finite)
+			if ax := math.Abs(x); ax >= 0x1p-126 && !math.IsInf(float64(float32(x)), 0) {
 				if !(float64(d) <= x && x <= float64(u)) {
 					r.Fail(hx.Failure{Kind: "oracle", Signature: "f32-enclosure-normal-range",
 						What: fmt.Sprintf("rtreeValueDown(%v)=%v, rtreeValueUp=%v do not enclose the value although it is in the float32 normal range", x, d, u),
